@@ -21,9 +21,8 @@ def bounded(tier, seed):
 
 MANIFEST = dict(
     category="other",
-    text="Contract-based proof of the search-loop clauses on the real MinPathCover(.Cycles).solve + bounded stand-in: covers, widths and k-cover solvability vs a brute-force minimum cover on "
-         "every small DAG / digraph with ignore sets, cover types, constraints, additional starts/ends.",
+    text='Contract-based proofs on the real source: the cover-row ENCODERS (every non-ignored edge used by some layer), the search-loop clauses of MinPathCover(.Cycles).solve, stDAG.get_width caching + bounded stand-in: covers, widths and k-cover solvability vs a brute-force minimum cover.',
     design_ref="DESIGN.md section 3 / C09",
     note="Width = minimum cover is NOT proved. Trusted: HiGHS, networkx (min-cost flow in get_width), brute-force oracle.",
-    technique="contract-based deductive verification of the search loops (PyVC) + bounded runtime-contract check vs brute-force minimum cover",
+    technique='contract-based deductive verification of encoders and search loops (PyVC) + bounded runtime-contract check vs brute-force minimum cover',
     engine="pyvc+rc")
